@@ -526,6 +526,11 @@ func (this *Writer) Write(block []byte) (int, error) {
 		return 0, &IOError{msg: "Stream closed", code: kanzi.ERR_WRITE_FILE}
 	}
 
+	if atomic.LoadInt32(&this.blockID) == _CANCEL_TASKS_ID {
+		// A previous block failed: the stream is incomplete, refuse more data
+		return 0, &IOError{msg: "Stream in error state after a failed write", code: kanzi.ERR_WRITE_FILE}
+	}
+
 	off := 0
 	remaining := len(block)
 
@@ -619,6 +624,11 @@ func (this *Writer) Close() error {
 }
 
 func (this *Writer) processBlock() error {
+	if atomic.LoadInt32(&this.blockID) == _CANCEL_TASKS_ID {
+		// A previous block failed: the stream is incomplete, do not report success
+		return &IOError{msg: "Stream in error state after a failed write", code: kanzi.ERR_WRITE_FILE}
+	}
+
 	if err := this.writeHeader(); err != nil {
 		return err
 	}
